@@ -667,6 +667,7 @@ fn shrink_candidates(s: &Scn) -> Vec<Scn> {
             }
         }
     }
+    out.retain(|c| c.pool.iter().all(|o| simmodel::gen::merged_is_in_domain(&o.as_merged())));
     out
 }
 
